@@ -1,6 +1,7 @@
 """X05 (extra) - Console::Prompt is a faithful line editor on a VT100 terminal (POSIX branch, behind a pty)."""
 import json
 import os
+import re
 import vlib
 from vlib import hexs
 
@@ -95,25 +96,15 @@ def key_of(ops, step):
                 if tt[0] == "line":
                     break
         return "Prompt." + op
-    if op == "junk":
-        return "Prompt.key:illFormedInput"
     us, rest = split_units(unhx(t[1]))
     kinds = [kind_of_unit(u) for u in us]
     if "escapeSequenceLongerThanKeyBuffer" in kinds:
         return "Prompt.key:escapeSequenceLongerThanKeyBuffer"
-    # an incomplete unit: look at the pieces sent before
+    if op == "junk":
+        return "Prompt.key:illFormedInput"
     if rest or not kinds:
-        return "Prompt.key:partial"
-    wide = ""
-    w = 0
-    plen = 0
-    for o in ops[:step]:
-        tt = o.split()
-        if tt[0] == "open":
-            w = int(tt[1])
-        if tt[0] == "line":
-            plen = len(unhx(tt[1]).decode("utf-8", "replace"))
-    return "Prompt.key:" + kinds[-1] + wide
+        return "Prompt.key:partial"          # a piece of a key sent in several writes
+    return "Prompt.key:" + kinds[-1]
 
 
 # ---------------------------------------------------------------------------------------------
@@ -135,10 +126,10 @@ ILL = [b"\xe2", b"\xe2\x82", b"\xf0", b"\xf0\x9f", b"\xf0\x9f\x98", b"\xc3", b"\
        b"\xf0\x1b[A", b"\xc3\r", b"\xe2\r\r", b"\xf0\r\r\r"]
 
 
-def rand_key(rng, history=True):
+def rand_key(rng, history=True, ascii_only=False):
     k = rng.random()
     if k < 0.50:
-        return rng.choice(CHARS).encode("utf-8")
+        return (chr(rng.randint(32, 126)) if ascii_only else rng.choice(CHARS)).encode("utf-8")
     if k < 0.90:
         u = rng.choice(EDIT_KEYS)
         if not history and u in (b"\x1b[A", b"\x1b[B"):
@@ -160,13 +151,14 @@ class Tracker:
         self.ahead = []         # complete units typed ahead
         self.prompt = b""
 
-    def open(self, w=None, sc=None, q=None):
+    def open(self, w=None, sc=None, q=None, utf8=1, bottom=None):
         rng = self.rng
+        bottom = bottom if bottom is not None else (1 if rng.random() < 0.3 else 0)
         w = w if w is not None else rng.choice(WIDTHS)
         sc = sc if sc is not None else rng.choice([0, 0, 0, 1, w - 1, rng.randint(0, w - 1)])
         q = q if q is not None else (1 if rng.random() < 0.2 else 0)
         self.w = w
-        self.ops.append("open %d %d %d 1" % (w, sc, q))
+        self.ops.append("open %d %d %d %d %d" % (w, sc, q, utf8, bottom))
 
     def feed_units(self, units):
         """account for complete units arriving"""
@@ -214,26 +206,40 @@ class Tracker:
 
 def rand_clean_exec(rng, nlines, nkeys):
     t = Tracker(rng)
-    t.open()
-    prompt = rng.choice(PROMPTS)
+    c_locale = rng.random() < 0.12          # LANG=C: the byte-per-character reader, ASCII input
+    t.open(utf8=0 if c_locale else 1)
+    prompts = [p for p in PROMPTS if max(p, default=0) < 128] if c_locale else PROMPTS
+    prompt = rng.choice(prompts)
+
+    def rk():
+        return rand_key(rng, ascii_only=c_locale)
     for _ in range(nlines):
         if rng.random() < 0.2:
-            prompt = rng.choice(PROMPTS)
+            prompt = rng.choice(prompts)
+        split = None
         if rng.random() < 0.25:                    # type-ahead while the application is busy
             for _ in range(rng.choice([1, 2, 4])):
-                t.key(rand_key(rng) if rng.random() < 0.85 else b"\r")
+                t.key(rk() if rng.random() < 0.85 else b"\r")
+            if not c_locale and rng.random() < 0.25 and b"\r" not in t.ahead:
+                # ... that ends inside a UTF-8 character: the rest arrives while getLine runs
+                ch = rng.choice(["\u00e9", "\u20ac", "\U0001d11e"]).encode()
+                split = (ch, rng.randint(1, len(ch) - 1))
+                t.ops.append("key " + hx(ch[:split[1]]))
         t.line(prompt)
+        if split:
+            t.ops.append("key " + hx(split[0][split[1]:]))
+            t.feed_units([split[0]])
         budget = rng.choice([0, 2, nkeys // 2, nkeys, nkeys])
         while t.in_line and budget > 0:
             budget -= 1
             k = rng.random()
             if k < 0.78:
-                t.key(rand_key(rng))
+                t.key(rk())
             elif k < 0.86:                          # several keys in one write (paste, fast typing)
-                t.key(b"".join(rand_key(rng) for _ in range(rng.choice([2, 3, 6]))) + (b"\r" if rng.random() < 0.2 else b"") +
-                      (rand_key(rng) if rng.random() < 0.1 else b""))
+                t.key(b"".join(rk() for _ in range(rng.choice([2, 3, 6]))) + (b"\r" if rng.random() < 0.2 else b"") +
+                      (rk() if rng.random() < 0.1 else b""))
             elif k < 0.94:
-                u = rand_key(rng)
+                u = rk()
                 if len(u) > 1:
                     t.key_split(u)
                 else:
@@ -248,8 +254,8 @@ def rand_clean_exec(rng, nlines, nkeys):
 def rand_junk_exec(rng, nkeys):
     """ill-formed input: only memory safety, the terminal mode and 'enter still ends the line' are judged for the line"""
     t = Tracker(rng)
-    t.open(q=0)
-    t.line(rng.choice(PROMPTS))
+    t.open(q=0, utf8=0 if rng.random() < 0.1 else 1)
+    t.line(rng.choice(PROMPTS[:6]))
     for _ in range(rng.choice([0, 1, 3])):
         t.key(rand_key(rng))
         if not t.in_line:
@@ -305,8 +311,27 @@ def walk_to_ops(rng, walk, w=None):
 # ---------------------------------------------------------------------------------------------
 
 def check(ctx, binary, executions, tag):
-    bad = vlib.check_executions(ctx, binary, executions, tag, SPECDIR, "LineEditTrace", "LineEditTrace.cfg", key_of,
-                                driver_timeout=3000, tlc_timeout=3000)
+    # the trace specification's own vacuity counters (events whose screen was judged / events not judged at all) are
+    # printed with TRACE-DONE; vlib.check_executions does not hand them out, so validate_trace is wrapped for the call
+    seen = []
+    orig = vlib.validate_trace
+
+    def wrapped(*a, **k):
+        r, mism, done = orig(*a, **k)
+        seen.extend(r.printed)
+        return r, mism, done
+    vlib.validate_trace = wrapped
+    try:
+        bad = vlib.check_executions(ctx, binary, executions, tag, SPECDIR, "LineEditTrace", "LineEditTrace.cfg", key_of,
+                                    driver_timeout=3000, tlc_timeout=3000)
+    finally:
+        vlib.validate_trace = orig
+    c = ctx.notes.setdefault("trace_spec_counters", {})
+    for p in seen:
+        if p.startswith('"TRACE-DONE"'):
+            v = vlib.parse_tla_value("<<" + p + ">>")
+            if len(v) >= 5:
+                c[tag] = {"events": v[1], "mismatches": v[2], "screen_judged": v[3], "not_judged": v[4]}
     tally(ctx, os.path.join(ctx.work, "trace_%s.ndjson" % tag))
     return bad
 
@@ -356,6 +381,67 @@ def graph_replay(ctx, binary, cfg, tag, workers=4, max_len=120, timeout=1500):
     check(ctx, binary, execs, "graph_" + tag)
 
 
+def reader_shape():
+    """Which transcription in KeyReader.tla corresponds to read*EscapedSequence in the source: 'repo', 'fixed', 'unknown'."""
+    try:
+        src = open(os.path.join(vlib.REPO, "src", "Console.cpp")).read()
+    except OSError:
+        return "unknown"
+    i = src.find("usize readBufferedEscapedSequence(")
+    j = src.find("void concharArrayToString(")
+    body = re.sub(r"\s+", "", src[i:j]) if 0 <= i < j else ""
+    if not body or "readUnbufferedEscapedSequence(constchar*seqStart,char*buffer)" not in body:
+        return "unknown"
+    if body.count("if(buffer-seqStart<62)") == 2 and "*(buffer++)=ch;" not in body:
+        return "fixed"
+    if "*(buffer++)=ch;if(seqStart[1]!='['||!isSeqAttributeChar(ch)){*buffer='\\0';returnbuffer-start;}" in body and \
+       "returnbuffer-start;}++buffer;}}" in body:
+        return "repo"
+    return "unknown"
+
+
+def reader_layer2(ctx, binary):
+    """Layer 2: the key reader transcribed (KeyReader.tla): bounds of the key buffer, progress, refinement of LineEdit's
+    framing for every byte sequence up to N with every type-ahead split; the byte sequences are replayed on the real Prompt."""
+    rng = ctx.rng
+    dot = os.path.join(ctx.work, "keyreader.dot")
+    r = vlib.tlc(SPECDIR, "KeyReader", "KeyReader_quick.cfg", workers=2 if ctx.quick else 4, timeout=1500, dump=dot, xmx="4g")
+    ctx.add_tlc("KeyReader(fixed,N=5)", r)
+    walks = []
+    if r.ok:
+        walks, nedges = vlib.graph_walks(dot, max_len=50, seed=ctx.seed)
+        os.remove(dot)
+    if not ctx.quick:
+        r = vlib.tlc(SPECDIR, "KeyReader", "KeyReader_fixed.cfg", workers=4, timeout=2400, xmx="4g")
+        ctx.add_tlc("KeyReader(fixed,N=6)", r)
+    shape = reader_shape()
+    ctx.notes["key_reader_shape_in_source"] = shape
+    if shape == "repo":
+        r = vlib.tlc(SPECDIR, "KeyReader", "KeyReader_repo.cfg", workers=4, timeout=1500, xmx="4g")
+        ctx.add_tlc("KeyReader(repo,N=6)", r, must_pass=False)
+        ctx.notes["layer2_source_shape_keeps_key_buffer_bounds"] = bool(r.ok)
+        if r.broken:
+            ctx.broken.append("KeyReader(repo): " + r.broken[:1500])
+    elif shape == "unknown":
+        ctx.drift += 1
+    if ctx.quick and len(walks) > 250:
+        walks = rng.sample(walks, 250)
+    execs = []
+    for w in walks:
+        bs = bytes(args[0] for name, args in w)
+        ta = rng.randint(0, len(bs)) if rng.random() < 0.6 else 0
+        ops = ["open %d 0 0 1" % rng.choice([5, 8, 20])]
+        if ta:
+            ops.append("junk " + hx(bs[:ta]))
+        ops.append("line x3e")
+        ops += ["junk " + hx(bs[i:i + 1]) for i in range(ta, len(bs))]
+        ops += ["finish", "close"]
+        execs.append(ops)
+    ctx.notes["key_reader_sequences_replayed"] = len(execs)
+    if execs:
+        check(ctx, binary, execs, "reader")
+
+
 def run(ctx):
     binary = build()
     rng = ctx.rng
@@ -363,12 +449,15 @@ def run(ctx):
     #    browsed, only enter returns, ...) and every edge of its state graph replayed on the real Prompt through the pty
     if ctx.quick:
         graph_replay(ctx, binary, "LineEdit_quick.cfg", "quick", workers=2)
+        graph_replay(ctx, binary, "LineEdit_h2.cfg", "h2", workers=2)       # two history lines, one-character buffer
     else:
         r = vlib.tlc(SPECDIR, "LineEdit", "LineEdit.cfg", workers=4, timeout=1500, xmx="4g")      # larger alphabet: model only
         ctx.add_tlc("LineEdit:LineEdit.cfg", r)
         graph_replay(ctx, binary, "LineEdit_quick.cfg", "quick")
         graph_replay(ctx, binary, "LineEdit_hist.cfg", "hist")
         graph_replay(ctx, binary, "LineEdit_buf3.cfg", "buf3")
+    # 1b. Layer 2: the key reader
+    reader_layer2(ctx, binary)
     # 2. direction B: random well-formed key sequences (all widths, prompts, type-ahead, pasted and split keys)
     nexec, nlines, nkeys = (120, 3, 18) if ctx.quick else (3000, 4, 30)
     check(ctx, binary, [rand_clean_exec(rng, rng.choice([1, 2, nlines]), nkeys) for _ in range(nexec)], "random")
